@@ -125,6 +125,52 @@ func ownFDs() map[string]string {
 	return m
 }
 
+// normFile maps what a probe derived from its argv[0] back to the real plugin directory
+// when it was launched through a symbolic link to that directory.
+func normFile(f string) string {
+	for _, pre := range []string{pluginDirName + "l2/", pluginDirName + "l/"} {
+		if strings.HasPrefix(f, pre) {
+			return pluginDirName + "/" + strings.TrimPrefix(f, pre)
+		}
+	}
+	return f
+}
+
+// shapedPath returns the path to hand to nri for the real directory <root>/<name>.
+func shapedPath(root, name, shape string) (string, error) {
+	real := filepath.Join(root, name)
+	switch shape {
+	case "symlink":
+		l := filepath.Join(root, name+"l")
+		return l, os.Symlink(name, l)
+	case "symlink2":
+		l1, l2 := filepath.Join(root, name+"l"), filepath.Join(root, name+"l2")
+		if err := os.Symlink(real, l1); err != nil {
+			return "", err
+		}
+		return l2, os.Symlink(name+"l", l2)
+	case "symparent":
+		up := filepath.Join(root, "up")
+		if _, err := os.Lstat(up); err != nil {
+			if err := os.Symlink(root, up); err != nil {
+				return "", err
+			}
+		}
+		return up + "/" + name, nil
+	case "slash":
+		return real + "/", nil
+	case "dots":
+		return root + "/.//" + name, nil
+	case "relative":
+		wd, err := os.Getwd()
+		if err != nil {
+			return "", err
+		}
+		return filepath.Rel(wd, real)
+	}
+	return real, nil
+}
+
 func readReports(root string) ([]Report, error) {
 	ents, err := os.ReadDir(filepath.Join(root, "reports"))
 	if err != nil {
@@ -143,6 +189,7 @@ func readReports(root string) ([]Report, error) {
 		if err := json.Unmarshal(b, &r); err != nil {
 			return nil, fmt.Errorf("report %s: %v", e.Name(), err)
 		}
+		r.File = normFile(r.File)
 		reps = append(reps, r)
 	}
 	sort.Slice(reps, func(i, j int) bool {
@@ -171,6 +218,7 @@ func readLog(root string) ([]Line, error) {
 		if err := json.Unmarshal([]byte(s), &l); err != nil {
 			return nil, fmt.Errorf("event log line %q: %v", s, err)
 		}
+		l.P = normFile(l.P)
 		lines = append(lines, l)
 	}
 	return lines, nil
@@ -461,6 +509,16 @@ func runOnce(c C18Case) verdict {
 	}
 	for _, p := range c.Plugins {
 		dst := filepath.Join(pdir, p.File())
+		if p.Link {
+			// the real file lives outside the plugin directory, the entry is a symbolic link
+			if err := os.MkdirAll(filepath.Join(root, "bin"), 0o755); err != nil {
+				return infra("%v", err)
+			}
+			if err := os.Symlink(filepath.Join(root, "bin", p.File()), dst); err != nil {
+				return infra("%v", err)
+			}
+			dst = filepath.Join(root, "bin", p.File())
+		}
 		if p.Behav == bGarbage {
 			var data []byte
 			switch p.Garbage {
@@ -480,6 +538,23 @@ func runOnce(c C18Case) verdict {
 	for _, e := range c.Others {
 		dst := filepath.Join(pdir, e.Name)
 		switch e.Kind {
+		case "dirlink":
+			if err := os.MkdirAll(filepath.Join(root, "elsewhere", e.Name+".d"), 0o755); err != nil {
+				return infra("%v", err)
+			}
+			if err := os.Symlink(filepath.Join(root, "elsewhere", e.Name+".d"), dst); err != nil {
+				return infra("%v", err)
+			}
+		case "filelink":
+			if err := os.MkdirAll(filepath.Join(root, "elsewhere"), 0o755); err != nil {
+				return infra("%v", err)
+			}
+			if err := writeFileMode(filepath.Join(root, "elsewhere", e.Name), []byte("# not a plugin\n"), 0o644); err != nil {
+				return infra("%v", err)
+			}
+			if err := os.Symlink(filepath.Join(root, "elsewhere", e.Name), dst); err != nil {
+				return infra("%v", err)
+			}
 		case "dir":
 			if err := os.Mkdir(dst, 0o755); err != nil {
 				return infra("%v", err)
@@ -516,10 +591,31 @@ func runOnce(c C18Case) verdict {
 		}
 	}
 	for _, f := range c.Confs {
-		if err := os.WriteFile(filepath.Join(cdir, f.File), []byte(f.Content), 0o644); err != nil {
+		dst := filepath.Join(cdir, f.File)
+		if f.Link {
+			if err := os.MkdirAll(filepath.Join(root, "cdata"), 0o755); err != nil {
+				return infra("%v", err)
+			}
+			if err := os.Symlink(filepath.Join(root, "cdata", f.File), dst); err != nil {
+				return infra("%v", err)
+			}
+			dst = filepath.Join(root, "cdata", f.File)
+		}
+		if err := os.WriteFile(dst, []byte(f.Content), 0o644); err != nil {
 			return infra("%v", err)
 		}
 	}
+
+	// --- the paths handed to nri ------------------------------------------------------------
+	pluginPath, err := shapedPath(root, pluginDirName, c.PluginPath)
+	if err != nil {
+		return infra("plugin path: %v", err)
+	}
+	confPath, err := shapedPath(root, confDirName, c.ConfPath)
+	if err != nil {
+		return infra("drop-in path: %v", err)
+	}
+	h.note("plugin path %s, drop-in path %s", pluginPath, confPath)
 
 	// --- the runtime ---------------------------------------------------------------------
 	hs := openHeld(root, c.Held, h)
@@ -542,8 +638,8 @@ func runOnce(c C18Case) verdict {
 		ctrs = append(ctrs, &api.Container{Id: fmt.Sprintf("sc%d", i), PodSandboxId: "sp0", Name: fmt.Sprintf("sc%d", i)})
 	}
 	opts := []adaptation.Option{
-		adaptation.WithPluginPath(pdir),
-		adaptation.WithPluginConfigPath(cdir),
+		adaptation.WithPluginPath(pluginPath),
+		adaptation.WithPluginConfigPath(confPath),
 		adaptation.WithSocketPath(filepath.Join(root, "nri.sock")),
 	}
 	if !c.Listen {
@@ -654,7 +750,7 @@ func runOnce(c C18Case) verdict {
 	if startErr == nil {
 		for _, p := range c.Plugins {
 			switch p.Behav {
-			case bSleep, bCfgFail, bCfgHang, bSyncFail:
+			case bSleep, bCfgFail, bCfgHang, bSyncFail, bSyncHang, bSyncClose:
 				for _, r := range byFile[pluginDirName+"/"+p.File()] {
 					if v := notReaped("after Start (plugin failed to register/configure/synchronize)", r, p); v.out.Fail != "" {
 						return v
@@ -846,6 +942,7 @@ func judge(c C18Case, h *history, startErr error, reports []Report, lines []Line
 
 	// -- launched exactly once / nothing else launched ------------------------------------
 	expectLaunch := map[string]Plugin{}
+	var linkLenient []string
 	launched := 0
 	for _, p := range c.Plugins {
 		key := pluginDirName + "/" + p.File()
@@ -859,6 +956,15 @@ func judge(c C18Case, h *history, startErr error, reports []Report, lines []Line
 		if !canExec[p.File()] {
 			cls("not_executable_by_runtime")
 			continue
+		}
+		if p.Link {
+			// a symbolic link is not a regular file: the statement neither demands nor forbids
+			// launching it. If nri launched it, it is judged like any other plugin.
+			if len(byFile[key]) == 0 {
+				linkLenient = append(linkLenient, "symlink_entry_not_launched")
+				continue
+			}
+			linkLenient = append(linkLenient, "symlink_entry_launched")
 		}
 		expectLaunch[key] = p
 		launched++
@@ -940,9 +1046,16 @@ func judge(c C18Case, h *history, startErr error, reports []Report, lines []Line
 		extKeys[x.Key()] = true
 	}
 	cfgLines := map[string][]Line{}
+	syncCount := map[string]int{}
+	lateSync := ""
 	var life []Line
 	for _, l := range lines {
 		switch {
+		case l.Ev == "Synchronize":
+			syncCount[l.P]++
+			if len(life) > 0 && lateSync == "" {
+				lateSync = l.P
+			}
 		case l.Ev == "Configure":
 			cfgLines[l.P] = append(cfgLines[l.P], l)
 		case lifecycle[l.Ev]:
@@ -978,6 +1091,28 @@ func judge(c C18Case, h *history, startErr error, reports []Report, lines []Line
 		if got != want {
 			return failNow(h, "plugin %s received configuration %s, want %s (drop-ins present: %s; NN-name.conf wins over name.conf, none means empty)",
 				p.File(), short(got), short(want), kind)
+		}
+	}
+
+	// -- synchronization: every launched plugin that got through registration and configuration
+	// is synchronized, once, before any request is relayed — whatever happened to the plugins
+	// synchronized before it ("a plugin that fails to … synchronize is skipped without
+	// affecting the others")
+	if startErr == nil || c.SyncFn == "fail_after" {
+		for _, key := range sortedKeysP(expectLaunch) {
+			p := expectLaunch[key]
+			n := syncCount[key]
+			switch {
+			case !p.reachesSync() && n != 0:
+				return failNow(h, "plugin %s (%s) never got through registration and configuration but was synchronized", p.File(), p.Behav)
+			case p.reachesSync() && n == 0:
+				return failTimed(h, "plugin %s (%s) registered and was configured but was never synchronized%s", p.File(), p.Behav, syncBehind(c, expectLaunch, p))
+			case p.reachesSync() && n > 1:
+				return failNow(h, "plugin %s (%s) was synchronized %d times (the state fits one message)", p.File(), p.Behav, n)
+			}
+		}
+		if lateSync != "" {
+			return failNow(h, "plugin %q was synchronized after requests had been relayed", lateSync)
 		}
 	}
 
@@ -1146,7 +1281,9 @@ func judge(c C18Case, h *history, startErr error, reports []Report, lines []Line
 	distractors := 0
 	for _, e := range c.Others {
 		distractors++
-		if e.Kind == "dir" {
+		if e.Kind == "dirlink" || e.Kind == "filelink" {
+			cls("distractor:" + e.Kind)
+		} else if e.Kind == "dir" {
 			cls("distractor:dir")
 			if e.Inner != "" {
 				cls("distractor:dir_with_executable_inside")
@@ -1201,6 +1338,24 @@ func judge(c C18Case, h *history, startErr error, reports []Report, lines []Line
 	}
 	if misbehaving > 0 {
 		cls("with_misbehaving")
+	}
+	if c.SyncFn != "fail_before" {
+		ps := syncOrder(c, expectLaunch)
+		for i := 1; i < len(ps); i++ {
+			if ps[i-1].failsAtSync() && ps[i].startsUp() {
+				cls("healthy_launched_plugin_directly_behind_sync_failure")
+				if ps[i].Behav == bOK {
+					cls("ok_plugin_directly_behind_sync_failure")
+				}
+				break
+			}
+		}
+		for i := 1; i < len(ps); i++ {
+			if ps[i-1].failsAtSync() && ps[i].failsAtSync() {
+				cls("sync_failure_directly_behind_sync_failure")
+				break
+			}
+		}
 	}
 	// launched plugins whose running processes one and the same request finds closed (they
 	// closed their connection or hung in that request, or closed it after the previous one)
@@ -1305,7 +1460,20 @@ func judge(c C18Case, h *history, startErr error, reports []Report, lines []Line
 		cls("no_plugin_dir")
 	}
 
+	if c.PluginPath != "" {
+		cls("plugin_path:" + c.PluginPath)
+	}
+	if c.ConfPath != "" {
+		cls("conf_path:" + c.ConfPath)
+	}
+	for _, f := range c.Confs {
+		if f.Link {
+			cls("dropin_is_symlink")
+			break
+		}
+	}
 	o := ev.Outcome{
+		Lenient:    linkLenient,
 		NonTrivial: launched >= 2 && (distractors+misbehaving+competing) >= 1,
 		Classes:    []string{fmt.Sprintf("launched:%d", launched)},
 	}
@@ -1315,6 +1483,29 @@ func judge(c C18Case, h *history, startErr error, reports []Report, lines []Line
 		}
 	}
 	return verdict{out: o}
+}
+
+// syncOrder lists the launched plugins nri hands to the synchronization, in directory order.
+func syncOrder(c C18Case, expectLaunch map[string]Plugin) []Plugin {
+	var ps []Plugin
+	for _, p := range c.Plugins {
+		if _, ok := expectLaunch[pluginDirName+"/"+p.File()]; ok && p.reachesSync() {
+			ps = append(ps, p)
+		}
+	}
+	sort.Slice(ps, func(i, j int) bool { return ps[i].File() < ps[j].File() })
+	return ps
+}
+
+// syncBehind says which plugin is synchronized directly before p (for the verdict text).
+func syncBehind(c C18Case, expectLaunch map[string]Plugin, p Plugin) string {
+	ps := syncOrder(c, expectLaunch)
+	for i := range ps {
+		if ps[i].File() == p.File() && i > 0 {
+			return fmt.Sprintf(" (it comes directly behind %s, %s)", ps[i-1].File(), ps[i-1].Behav)
+		}
+	}
+	return ""
 }
 
 func orderOf(ls []Line) string {
@@ -1385,7 +1576,7 @@ func TestExh_C18(t *testing.T) {
 	defer r.Flush()
 	ops := []string{"RunPodSandbox", "CreateContainer", "StartContainer", "StopContainer"}
 	var cases []C18Case
-	for i, b := range []string{bOK, bExit, bSleep, bCloseFD, bCfgFail, bCfgHang, bSyncFail, bDie, bDieAfter, bLinger, bCloseAt, bHang, bGarbage} {
+	for i, b := range []string{bOK, bExit, bSleep, bCloseFD, bCfgFail, bCfgHang, bSyncFail, bSyncHang, bSyncClose, bDie, bDieAfter, bLinger, bCloseAt, bHang, bGarbage} {
 		x := Plugin{Idx: "20", Stem: "x", Behav: b, Mode: 0o755}
 		switch b {
 		case bExit:
@@ -1441,6 +1632,41 @@ func TestExh_C18(t *testing.T) {
 		Listen:  true,
 		Exts:    []Ext{{Idx: "10", Name: "e0", Join: 0, Leave: 2}, {Idx: "20", Name: "e1", Join: 1, Leave: len(ops) + 1}, {Idx: "05", Name: "e2", Join: 3, Leave: 4}},
 	})
+	// failures at the Synchronize stage directly in front of a healthy plugin
+	mk := func(behavs ...string) []Plugin {
+		var ps []Plugin
+		for j, b := range behavs {
+			ps = append(ps, Plugin{Idx: fmt.Sprintf("%d0", j+1), Stem: "y", Behav: b, Mode: 0o755})
+		}
+		return ps
+	}
+	for _, bs := range [][]string{
+		{bOK, bSyncFail, bOK}, {bSyncFail, bOK}, {bSyncFail, bSyncFail, bOK}, {bOK, bSyncHang, bOK},
+		{bSyncClose, bOK}, {bOK, bSyncClose, bSyncFail, bOK, bOK},
+	} {
+		cases = append(cases, C18Case{Plugins: mk(bs...), Ops: ops[:3], SyncPods: 2, SyncCtrs: 3, StopAfter: "0"})
+	}
+	cases = append(cases, C18Case{
+		Plugins: mk(bSyncFail, bOK), Ops: ops, Listen: true, SyncPods: 1,
+		Exts: []Ext{{Idx: "15", Name: "e0", Join: 0, Leave: len(ops) + 1}, {Idx: "05", Name: "e1", Join: 1, Leave: 3}},
+	})
+	// every shape of the configured paths, for both directories at once; and directory entries
+	// and drop-ins that are symbolic links
+	for _, shape := range []string{"symlink", "symlink2", "symparent", "slash", "dots", "relative"} {
+		cases = append(cases, C18Case{
+			Plugins:    []Plugin{{Idx: "10", Stem: "a", Behav: bOK, Mode: 0o755}, {Idx: "20", Stem: "b", Behav: bOK, Mode: 0o700}},
+			Others:     []Entry{{Name: "30-d_ok", Kind: "dir", Mode: 0o755, Inner: "31-inner_ok"}, {Name: "notes.txt", Kind: "file", Mode: 0o644, Content: "text"}},
+			Confs:      []Conf{{File: "10-a_ok.conf", Content: "idx\n"}, {File: "a_ok.conf", Content: "base\n"}, {File: "b_ok.conf", Content: "base of b\n"}},
+			Ops:        ops[:2],
+			PluginPath: shape, ConfPath: shape,
+		})
+	}
+	cases = append(cases, C18Case{
+		Plugins: []Plugin{{Idx: "10", Stem: "a", Behav: bOK, Mode: 0o755}, {Idx: "20", Stem: "l", Behav: bOK, Mode: 0o755, Link: true}, {Idx: "30", Stem: "c", Behav: bOK, Mode: 0o755}},
+		Others:  []Entry{{Name: "40-dl_ok", Kind: "dirlink", Mode: 0o644}, {Name: "41-fl_ok", Kind: "filelink", Mode: 0o644}},
+		Confs:   []Conf{{File: "10-a_ok.conf", Content: "linked idx\n", Link: true}, {File: "a_ok.conf", Content: "base\n"}, {File: "c_ok.conf", Content: "linked base\n", Link: true}},
+		Ops:     ops[:2],
+	})
 	// several launched plugins are found closed, with their processes running, by the last
 	// request, and Stop follows at once / 1 ms / 20 ms later
 	for _, v := range []struct {
@@ -1450,6 +1676,8 @@ func TestExh_C18(t *testing.T) {
 		{[]string{bCloseAt, bCloseAt, bCloseAt, bCloseAt}, "0"},
 		{[]string{bCloseAt, bCloseAt, bCloseAt, bCloseAt}, "0"},
 		{[]string{bCloseAt, bLinger, bCloseAt, bLinger}, "0"},
+		{[]string{bCloseAt, bCloseAt, bCloseAt, bCloseAt, bCloseAt, bCloseAt}, "0"},
+		{[]string{bCloseAt, bCloseAt, bCloseAt, bCloseAt, bCloseAt, bCloseAt}, "0"},
 		{[]string{bCloseAt, bCloseAt, bCloseAt, bCloseAt}, "1ms"},
 		{[]string{bLinger, bLinger, bCloseAt}, "20ms"},
 	} {
@@ -1519,5 +1747,39 @@ func TestProp_C18(t *testing.T) {
 	if probeSrc == "" {
 		t.Fatal("VERIF_BIN is not set: the driver builds cmd/probeplugin into $VERIF_BIN/probeplugin")
 	}
-	ev.Run(t, "C18", genC18, runC18)
+	ev.Run(t, "C18", genC18, boundedShrink(runC18, shrinkBudget))
+}
+
+// shrinkBudget bounds the time spent on minimising a failing case. rapid looks at its own
+// -rapid.shrinktime only between whole minimisation steps, and one step can be a hundred
+// executions that cost a second or more each here (timeouts of misbehaving plugins).
+const shrinkBudget = 15 * time.Second
+
+// boundedShrink wraps run: once the budget since the first failing case of the process is
+// used up, the most recent failing case keeps its recorded outcome (rapid asks for it again to
+// produce its report, and whenever it lowered random bits that do not change the case); every
+// other candidate is answered "not judged" without being run, so
+// rapid stops minimising. The reported case is always one that was executed and failed.
+func boundedShrink(run func(C18Case) ev.Outcome, budget time.Duration) func(C18Case) ev.Outcome {
+	var firstFail time.Time
+	var lastFail string
+	var lastOutcome ev.Outcome
+	return func(c C18Case) ev.Outcome {
+		key := string(ev.Snapshot(c))
+		if key == lastFail {
+			// the shrinker often lowers random bits that do not change the case at all
+			return lastOutcome
+		}
+		if !firstFail.IsZero() && time.Since(firstFail) > budget {
+			return ev.Outcome{Excluded: "shrink_budget_exhausted", Classes: []string{"excluded"}}
+		}
+		o := run(c)
+		if o.Fail != "" {
+			if firstFail.IsZero() {
+				firstFail = time.Now()
+			}
+			lastFail, lastOutcome = key, o
+		}
+		return o
+	}
 }
